@@ -14,6 +14,7 @@ func init() { register("C13", checkC13) }
 
 func checkC13(c *Ctx) {
 	r := c.R
+	r.Rule("R12.1", "(shared with C12) the call returns normally unless the severity is Panic/Fatal: the termination decision table (a failed Write adds no terminating path)")
 	r.Rule("R02.3", "(shared with C02) the sink is told the record's own severity (its recursion guard and the destination selection rely on it): the level argument of every sink call is the level stored for the record")
 	r.Rule("R13.6", "failures leave no sticky state in a lock: every mutex the package acquires is released on every path to a return (the error return included), and the failure diagnostic is not logged while a mutex the sink needs is held")
 	r.Rule("R13.1", "fan-out continues: the loop of LWs.Write over the members has the natural exit only (no return, break, goto or panic in its body); the error edge rejoins the loop; each member gets the whole payload")
@@ -41,6 +42,7 @@ func checkC13(c *Ctx) {
 		c13Fanout(c, p, m)
 		c13Reaction(c, p, m)
 		noSideChannel(c, p, m, "R13.2")
+		c12Decision(c, p, m)
 		lockDiscipline(c, p, "R13.6")
 		c02Newline(c, p, m)
 		writerSetNilSafe(c, p, m, "R13.3")
@@ -67,6 +69,7 @@ func loopBlocks(fn *ssa.Function) map[*ssa.BasicBlock]bool {
 
 func c13Fanout(c *Ctx, p *Prog, m *Model) {
 	r := c.R
+	fanoutNoSelfCall(c, p, m, "R13.1")
 	lw := p.Method(p.Slog, "LWs", "Write")
 	if lw == nil {
 		r.Unk("R13.1", "fanout:LWs.Write", "-", "LWs.Write not found")
